@@ -80,6 +80,22 @@ def run(ctx):
         if rng.random() < 0.3:
             c['boost_error'] = False
         cases.append(c)
+    # exhaustive small scope: every version class x every mask value (int and numeric string) x micro
+    for ver in ('M1', 'M2', 'M3', 'M4', 'm4', 1, 2, 7, 40, '1', None):
+        for mk in list(range(-1, 9)) + [str(k) for k in range(0, 9)]:
+            for micro in (None, True, False):
+                content = '1' if ver in ('M1',) else ('12345678901234567890' if ver is None else '12')
+                c = {'content': content, 'version': ver, 'mask': mk}
+                if micro is not None:
+                    c['micro'] = micro
+                if ver is None:
+                    c['error'] = 'M'
+                cases.append(c)
+    # every version x every error level spelling x every mode
+    for ver in ('M1', 'M2', 'M3', 'M4', 1, 40):
+        for err in (None, 'L', 'M', 'Q', 'H', 'l', 'h'):
+            for mode in (None, 'numeric', 'alphanumeric', 'byte', 'kanji', 'hanzi'):
+                cases.append({'content': '12', 'version': ver, 'error': err, 'mode': mode})
     reqs, keep = [], []
     for c in cases:
         try:
